@@ -333,6 +333,12 @@ theorem ct2_none {n m x : Nat} {c o : Nat → Nat} (hx : x ≤ n) (hc : ∀ j, j
 theorem ctFlip_flip (k : Nat) : ctFlip (ctFlip k) = k := by
   unfold ctFlip; split <;> split <;> omega
 
+theorem ctFlip_ne (i : Nat) : ctFlip i ≠ i := by
+  unfold ctFlip; split <;> omega
+
+theorem ctRot_ne {m i : Nat} (hm : m % 2 = 0) (hi : i < m) : ctRot m i ≠ i := by
+  unfold ctRot; split <;> split <;> omega
+
 /-- **`cut_tile`: the 2m new chambers satisfy the commutation relations.**  If `cut_tile`
     returns on a complete 3-dimensional D-set (chamber arguments), the result is complete with
     involutive operations, has 2m more chambers, keeps operations 0, 1, 3 of the old chambers, and
@@ -348,7 +354,8 @@ theorem cutTile_commutes {ds s : DSetData} (hv : ValidSet ds) (hdim : ds.dim = 3
     ((∀ k, k < cut.length → ds.opU 0 (cut.getD k 0) = cut.getD (ctFlip k) 0) →
      (∀ k, k < cut.length → ds.opU 2 (ds.opU 0 (cut.getD k 0)) = ds.opU 0 (ds.opU 2 (cut.getD k 0))) →
      ∀ c, ds.size < c → c ≤ ds.size + 2 * cut.length → s.opU 2 (s.opU 0 c) = s.opU 0 (s.opU 2 c)) ∧
-    ((∀ k, k < cut.length → ds.opU 0 (cut.getD k 0) = cut.getD (ctFlip k) 0) → FarCommute ds → FarCommute s) := by
+    ((∀ k, k < cut.length → ds.opU 0 (cut.getD k 0) = cut.getD (ctFlip k) 0) → FarCommute ds → FarCommute s) ∧
+    (Loopless ds → Loopless s) ∧ (FarDiffer ds → FarDiffer s) := by
   unfold cutTile at h
   simp only at h
   split at h
@@ -468,10 +475,6 @@ theorem cutTile_commutes {ds s : DSetData} (hv : ValidSet ds) (hdim : ds.dim = 3
       rw [Z0 _ i (Or.inr rfl) hi, Z2 _ _ (Or.inr rfl) hf, Z2 _ i (Or.inr rfl) hi, if_neg hne, if_neg hne,
         B 0 _ (by omega) (by omega) (hoppr i hi).1 (hoppr i hi).2, hov i hi, hov _ hf,
         ← hcomm i hi, hadj i hi]
-  refine ⟨f3.valid, s3, m3, B, h03, h02, ?_⟩
-  intro hadj hfc
-  have hcomm : ∀ k, k < cut.length → ds.opU 2 (ds.opU 0 (cut.getD k 0)) = ds.opU 0 (ds.opU 2 (cut.getD k 0)) :=
-    fun k hk => hfc 0 2 _ (by omega) (by omega) (hcut k hk).1 (hcut k hk).2
   have hne : ¬ cut.length = 0 := by omega
   -- s2 on the old chambers
   have Z2c : ∀ i, i < cut.length → s.opU 2 (cut.getD i 0) = ds.size + 0 + 1 + i := by
@@ -496,6 +499,77 @@ theorem cutTile_commutes {ds s : DSetData} (hv : ValidSet ds) (hdim : ds.dim = 3
         (ct2_none (c := fun i => cut.getD i 0) (o := fun i => opp.getD i 0) hx2 hcx hox),
       f1.other 2 x (by omega) hx1 (by omega) (by omega), f0.other 2 x (by omega) hx1 (by omega) (by omega)]
     exact gold 2 x (by omega) hx1 hx2
+  have classify : ∀ v, (∃ i, i < cut.length ∧ cut.getD i 0 = v) ∨ (∃ i, i < cut.length ∧ opp.getD i 0 = v) ∨
+      ((∀ j, j < cut.length → cut.getD j 0 ≠ v) ∧ (∀ j, j < cut.length → opp.getD j 0 ≠ v)) := by
+    intro v
+    by_cases hc : ∃ i, i < cut.length ∧ cut.getD i 0 = v
+    · exact Or.inl hc
+    · by_cases ho : ∃ i, i < cut.length ∧ opp.getD i 0 = v
+      · exact Or.inr (Or.inl ho)
+      · exact Or.inr (Or.inr ⟨fun j hj h => hc ⟨j, hj, h⟩, fun j hj h => ho ⟨j, hj, h⟩⟩)
+  refine ⟨f3.valid, s3, m3, B, h03, h02, ?_, ?_, ?_⟩
+  rotate_left
+  · -- loopless
+    intro hl i v hi hv1 hv2
+    rw [m3] at hi; rw [s3] at hv2
+    have hi4 : i = 0 ∨ i = 1 ∨ i = 2 ∨ i = 3 := by omega
+    by_cases hvn : ds.size < v
+    · obtain ⟨k, hk, rfl | rfl⟩ := hnew v hvn hv2
+      · have f1 := ctFlip_ne k
+        have f2 := ctRot_ne hm hk
+        rcases hi4 with rfl | rfl | rfl | rfl
+        · rw [Z0 0 k (Or.inl rfl) hk]; omega
+        · rw [Z1 0 k (Or.inl rfl) hk]; omega
+        · rw [Z2 0 k (Or.inl rfl) hk, if_pos rfl]; have := (hcut k hk).2; omega
+        · rw [Z3A k hk]; omega
+      · have f1 := ctFlip_ne k
+        have f2 := ctRot_ne hm hk
+        rcases hi4 with rfl | rfl | rfl | rfl
+        · rw [Z0 _ k (Or.inr rfl) hk]; omega
+        · rw [Z1 _ k (Or.inr rfl) hk]; omega
+        · rw [Z2 _ k (Or.inr rfl) hk, if_neg hne]; have := (hoppr k hk).2; omega
+        · rw [Z3B k hk]; omega
+    · have hvo : v ≤ ds.size := by omega
+      by_cases hi2 : i = 2
+      · subst hi2
+        rcases classify v with ⟨k, hk, rfl⟩ | ⟨k, hk, rfl⟩ | ⟨hcx, hox⟩
+        · rw [Z2c k hk]; omega
+        · rw [Z2o k hk]; omega
+        · rw [U2 v hv1 hvo hcx hox]; exact hl 2 v (by omega) hv1 hvo
+      · rw [B i v hi hi2 hv1 hvo]; exact hl i v (by omega) hv1 hvo
+  · -- far operations differ
+    intro hd a b v hab hb hv1 hv2
+    rw [m3] at hb; rw [s3] at hv2
+    have hab' : (a = 0 ∧ b = 2) ∨ (a = 0 ∧ b = 3) ∨ (a = 1 ∧ b = 3) := by omega
+    by_cases hvn : ds.size < v
+    · obtain ⟨k, hk, rfl | rfl⟩ := hnew v hvn hv2
+      · have hfl := ctFlip_lt hm hk
+        have hrl := ctRot_lt hm hk
+        rcases hab' with ⟨rfl, rfl⟩ | ⟨rfl, rfl⟩ | ⟨rfl, rfl⟩
+        · rw [Z0 0 k (Or.inl rfl) hk, Z2 0 k (Or.inl rfl) hk, if_pos rfl]; have := (hcut k hk).2; omega
+        · rw [Z0 0 k (Or.inl rfl) hk, Z3A k hk]; omega
+        · rw [Z1 0 k (Or.inl rfl) hk, Z3A k hk]; omega
+      · have hfl := ctFlip_lt hm hk
+        have hrl := ctRot_lt hm hk
+        rcases hab' with ⟨rfl, rfl⟩ | ⟨rfl, rfl⟩ | ⟨rfl, rfl⟩
+        · rw [Z0 _ k (Or.inr rfl) hk, Z2 _ k (Or.inr rfl) hk, if_neg hne]; have := (hoppr k hk).2; omega
+        · rw [Z0 _ k (Or.inr rfl) hk, Z3B k hk]; omega
+        · rw [Z1 _ k (Or.inr rfl) hk, Z3B k hk]; omega
+    · have hvo : v ≤ ds.size := by omega
+      rcases hab' with ⟨rfl, rfl⟩ | ⟨rfl, rfl⟩ | ⟨rfl, rfl⟩
+      · rw [B 0 v (by omega) (by omega) hv1 hvo]
+        have r0 := hv.range 0 v (by omega) hv1 hvo
+        rcases classify v with ⟨k, hk, rfl⟩ | ⟨k, hk, rfl⟩ | ⟨hcx, hox⟩
+        · rw [Z2c k hk]; omega
+        · rw [Z2o k hk]; omega
+        · rw [U2 v hv1 hvo hcx hox]; exact hd 0 2 v (by omega) (by omega) hv1 hvo
+      · rw [B 0 v (by omega) (by omega) hv1 hvo, B 3 v (by omega) (by omega) hv1 hvo]
+        exact hd 0 3 v (by omega) (by omega) hv1 hvo
+      · rw [B 1 v (by omega) (by omega) hv1 hvo, B 3 v (by omega) (by omega) hv1 hvo]
+        exact hd 1 3 v (by omega) (by omega) hv1 hvo
+  intro hadj hfc
+  have hcomm : ∀ k, k < cut.length → ds.opU 2 (ds.opU 0 (cut.getD k 0)) = ds.opU 0 (ds.opU 2 (cut.getD k 0)) :=
+    fun k hk => hfc 0 2 _ (by omega) (by omega) (hcut k hk).1 (hcut k hk).2
   have hoadj : ∀ i, i < cut.length → ds.opU 0 (opp.getD i 0) = opp.getD (ctFlip i) 0 := by
     intro i hi
     rw [hov i hi, hov _ (ctFlip_lt hm hi), ← hcomm i hi, hadj i hi]
